@@ -437,7 +437,7 @@ pub fn parse_value(w: &[&str]) -> GValue {
 }
 
 /// Emit the requests that build `t` (creation + any_append), returns the root's label.
-fn build_ops(s: &mut Session, sink: &mut Sink, t: &GTree) -> usize {
+pub fn build_ops(s: &mut Session, sink: &mut Sink, t: &GTree) -> usize {
     let r = s.exec(sink, &format!("new {}", GTree::leaf(t.v.clone()).wire()));
     let root: usize = r[3..].parse().unwrap();
     for k in &t.kids {
